@@ -206,8 +206,8 @@ Definition eq2sdss_xyz (ra dec : R) : vec :=
   (cos ra' * cos dec', sin ra' * cos dec', sin dec').
 
 Definition eq2sdss_R_gen (lat_atan2 : bool) (ra dec : R) : result (R * R) :=
-  if negb (in_range ra eq2sdss_range1) then Err EValue
-  else if negb (in_range dec eq2sdss_range2) then Err EValue
+  if negb (in_range ra eq2sdss_range1) then Err sdss_range_err
+  else if negb (in_range dec eq2sdss_range2) then Err sdss_range_err
   else
     let v := eq2sdss_xyz ra dec in
     let clambda := - (if lat_atan2 then atan2 (vx v) (sqrt (vy v * vy v + vz v * vz v)) else asin (vx v)) in
@@ -216,8 +216,8 @@ Definition eq2sdss_R_gen (lat_atan2 : bool) (ra dec : R) : result (R * R) :=
 Definition eq2sdss_R : R -> R -> result (R * R) := eq2sdss_R_gen eq2sdss_lat_atan2.
 
 Definition sdss2eq_R_gen (lat_atan2 : bool) (clambda ceta : R) : result (R * R) :=
-  if negb (in_range clambda sdss2eq_range1) then Err EValue
-  else if negb (in_range ceta sdss2eq_range2) then Err EValue
+  if negb (in_range clambda sdss2eq_range1) then Err sdss_range_err
+  else if negb (in_range ceta sdss2eq_range2) then Err sdss_range_err
   else
     let v := sdss_unit (clambda * D2R) (ceta * D2R) in
     let ra := lon_of v + sdss_node in
